@@ -120,6 +120,34 @@ fn check_raw32(b: &[u8; 32], st: &mut Stats) -> Result<(), String> {
         if disp != wantd {
             return Err(format!("Display {disp} != {wantd}"));
         }
+        // formatting into a sink that itself formats a node id while it is being written to (a log line
+        // tagger): both the outer and the nested formatting produce their forms
+        {
+            struct Tagger {
+                out: String,
+                tag: NodeId,
+                tags: usize,
+            }
+            impl std::fmt::Write for Tagger {
+                fn write_str(&mut self, s: &str) -> std::fmt::Result {
+                    let t = format!("[{}|{:?}]", self.tag, self.tag);
+                    self.tags += 1;
+                    if t != format!("[0x1111..1111|0x{}]", "11".repeat(32)) {
+                        return Err(std::fmt::Error);
+                    }
+                    self.out.push_str(s);
+                    Ok(())
+                }
+            }
+            use std::fmt::Write as _;
+            let mut sink = Tagger { out: String::new(), tag: NodeId::new(&[0x11; 32]), tags: 0 };
+            if write!(sink, "{a} {a:?}").is_err() {
+                return Err("formatting into a sink that formats another node id failed (nested form wrong)".into());
+            }
+            if sink.out != format!("{wantd} {dbg}") || sink.tags == 0 {
+                return Err(format!("formatting into a tagging sink gives {:?}", sink.out));
+            }
+        }
         // formatter flags must not change the forms (pretty Debug is what dbg! and {:#?} of a
         // containing struct use)
         let alt = format!("{a:#?}");
